@@ -294,6 +294,7 @@ let node_op tok : NodeSys.sop * (BinNums.coq_N * BinNums.coq_N) list =
     | "B" -> NodeSys.SLoop (nz p.(1), nz p.(2), nz p.(3))
     | "T" -> NodeSys.STime (z_of_int (int_of_string p.(1)))
     | "C" -> NodeSys.SConnect (nz p.(1), nz p.(2))
+    | "V" -> NodeSys.SConnect (nz p.(1), nz p.(2))     (* dialled via a beacon entry (an IPv4 address: the model's addresses are the mapped form) *)
     | "R" -> NodeSys.SReconnect (nz p.(1), nz p.(2))
     | "H" -> NodeSys.SHousekeep (nz p.(1))
     | "D" -> NodeSys.SDeliver (ni p.(1))
